@@ -2,7 +2,7 @@
 # usage: try_round.sh <round> [seed]   every seeded change of the round against its own property's check, each in a scratch worktree of
 # /repo (VERIF_REPO), 5 at a time; worktrees are removed afterwards.  /repo itself is not touched.
 R="$1"; S="${2:-0}"
-for D in /verif/seeded/*_$R; do basename "$D"; done | xargs -P 5 -I{} sh -c '
+for D in /verif/seeded/*_$R; do basename "$D"; done | xargs -P ${TRY_P:-5} -I{} sh -c '
   N={}; P="${N%%_*}"; WT=/tmp/tr_$N
   git -C /repo worktree add --detach "$WT" HEAD -q || exit 2
   git -C "$WT" apply /verif/seeded/$N/patch.diff || echo "$N: patch does not apply"
